@@ -151,6 +151,9 @@ func runPosScript(v int, script string) string {
 }
 
 func emitPosLine(e *emitter, v int, script string) {
+	if e.exhausted() {
+		return
+	}
 	res := guarded(20*time.Second, func() string { return runPosScript(v, script) })
 	e.line("pos", fmt.Sprintf("v%d %s", v, script), res)
 }
